@@ -141,9 +141,62 @@ def run(ctx):
             except Exception:
                 return repr(construct)[:500]
 
-    # ---- 1. generator statements, perturbations, chains
+    # ---- 1. recipes
+    nrec = ctx.pick({"quick": 14, "thorough": 300})
+    for name in sorted(recipes):
+        fn = recipes[name]
+        for k in range(nrec):
+            if not ctx.budget_ok():
+                break
+            v = G.Vals(k % 20, salt=k)
+            try:
+                construct = fn(rng, v)
+            except (sa_exc.SQLAlchemyError, NotImplementedError):
+                ctx.count("rejected_by_constructor")
+                continue
+            except Exception as e:  # recipe / constructor problem: out of scope for compile(); listed for the harness author
+                ctx.count("recipe_construction_errors")
+                ctx.seen("recipe_construction_errors", f"{name}: {type(e).__name__}: {str(e)[:120]}")
+                continue
+            if name in SPECIFIC:
+                ctx.count("dialect_specific_constructs")
+            desc = name + ": " + describe(construct)
+            ok = judge(construct, "recipe:" + name, desc, False)
+            ctx.seen("recipes", name)
+            ctx.case({"r": desc}, nontrivial=ok > 0)
+            if k == 0 and ctx.shard == 0 and name in ("pg_insert", "window", "cte_dml"):
+                ctx.sample({"recipe": name, "default_sql": desc[:300]})
+
+    # ---- 2. DDL
+    nddl = ctx.pick({"quick": 25, "thorough": 400})
+    for name in sorted(ddl):
+        fn = ddl[name]
+        for k in range(nddl):
+            if not ctx.budget_ok():
+                break
+            v = G.Vals(k % 20, salt=k)
+            try:
+                constructs = fn(rng, v)
+            except (sa_exc.SQLAlchemyError, NotImplementedError):
+                ctx.count("rejected_by_constructor")
+                continue
+            except Exception as e:
+                ctx.count("recipe_construction_errors")
+                ctx.seen("recipe_construction_errors", f"{name}: {type(e).__name__}: {str(e)[:120]}")
+                continue
+            if name in SPECIFIC:
+                ctx.count("dialect_specific_constructs")
+            for c in constructs:
+                desc = f"{name}/{type(c).__name__}: " + describe(c)
+                ok = judge(c, "ddl:" + name, desc, True)
+                ctx.seen("ddl_kinds", type(c).__name__)
+                ctx.case({"d": desc}, nontrivial=ok > 0)
+            if k == 0 and ctx.shard == 0 and name == "create_drop_table":
+                ctx.sample({"ddl": name, "first": describe(constructs[0])[:400]})
+
+    # ---- 3. generator statements, perturbations, chains (last: open-ended, cut by the soft deadline if need be)
     g = G.Gen(rng, depth=2, orm_ratio=0.3, rich=True)
-    nbase = ctx.pick({"quick": 40, "thorough": 1200})
+    nbase = ctx.pick({"quick": 40, "thorough": 800})
     ops_cache = {}
     for bi in range(nbase):
         if not ctx.budget_ok():
@@ -178,56 +231,3 @@ def run(ctx):
             ctx.seen("chain_ops", names[-1])
             ok = judge(stmt, "chain", "chain " + ",".join(names) + " on " + G.describe(spec), False)
             ctx.case({"c": G.describe(spec), "ops": names}, nontrivial=ok > 0)
-
-    # ---- 2. recipes
-    nrec = ctx.pick({"quick": 14, "thorough": 400})
-    for name in sorted(recipes):
-        fn = recipes[name]
-        for k in range(nrec):
-            if not ctx.budget_ok():
-                break
-            v = G.Vals(k % 20, salt=k)
-            try:
-                construct = fn(rng, v)
-            except (sa_exc.SQLAlchemyError, NotImplementedError):
-                ctx.count("rejected_by_constructor")
-                continue
-            except Exception as e:  # recipe / constructor problem: out of scope for compile(); listed for the harness author
-                ctx.count("recipe_construction_errors")
-                ctx.seen("recipe_construction_errors", f"{name}: {type(e).__name__}: {str(e)[:120]}")
-                continue
-            if name in SPECIFIC:
-                ctx.count("dialect_specific_constructs")
-            desc = name + ": " + describe(construct)
-            ok = judge(construct, "recipe:" + name, desc, False)
-            ctx.seen("recipes", name)
-            ctx.case({"r": desc}, nontrivial=ok > 0)
-            if k == 0 and ctx.shard == 0 and name in ("pg_insert", "window", "cte_dml"):
-                ctx.sample({"recipe": name, "default_sql": desc[:300]})
-
-    # ---- 3. DDL
-    nddl = ctx.pick({"quick": 25, "thorough": 600})
-    for name in sorted(ddl):
-        fn = ddl[name]
-        for k in range(nddl):
-            if not ctx.budget_ok():
-                break
-            v = G.Vals(k % 20, salt=k)
-            try:
-                constructs = fn(rng, v)
-            except (sa_exc.SQLAlchemyError, NotImplementedError):
-                ctx.count("rejected_by_constructor")
-                continue
-            except Exception as e:
-                ctx.count("recipe_construction_errors")
-                ctx.seen("recipe_construction_errors", f"{name}: {type(e).__name__}: {str(e)[:120]}")
-                continue
-            if name in SPECIFIC:
-                ctx.count("dialect_specific_constructs")
-            for c in constructs:
-                desc = f"{name}/{type(c).__name__}: " + describe(c)
-                ok = judge(c, "ddl:" + name, desc, True)
-                ctx.seen("ddl_kinds", type(c).__name__)
-                ctx.case({"d": desc}, nontrivial=ok > 0)
-            if k == 0 and ctx.shard == 0 and name == "create_drop_table":
-                ctx.sample({"ddl": name, "first": describe(constructs[0])[:400]})
